@@ -82,7 +82,7 @@ func checkC07(r *Run) {
 			r.requireAtoms("C07-R2", key, ret, P.Guards(ret, 0), []req{
 				{"factor>=0", `^!\(types\.Dec\)\.LT\(param:slashFactor, types\.ZeroDec\(\)\)$`},
 				{"height-not-future", `^!\(types\.Ctx\.BlockHeight\(param:ctx\) < param:infractionHeight\)$`},
-				{"within-unstaking-window", `^!\(time\.Time\)\.After\(types\.Ctx\.BlockTime\(param:ctx\), \(time\.Time\)\.Add\(\(types\.Context\)\.BlockTime\(types\.Ctx\.WithBlockHeight\(param:ctx, param:infractionHeight\)\), ` + q(posK+"UnStakingTime(param:k, param:ctx)") + `\)\)$`},
+				{"within-unstaking-window", `^!\(time\.Time\)\.After\(types\.Ctx\.BlockTime\(param:ctx\), \(time\.Time\)\.Add\(types\.Ctx\.WithBlockHeight\(param:ctx, param:infractionHeight\)\.header\.Time, ` + q(posK+"UnStakingTime(param:k, param:ctx)") + `\)\)$`},
 				{"found", `^` + q(posK+"GetValidator(param:k, param:ctx, param:address)#1") + `$`},
 				{"not-unstaked", `^!` + q(vT+"IsUnstaked("+posK+"GetValidator(param:k, param:ctx, param:address)#0)") + `$`},
 			})
